@@ -21,6 +21,8 @@ def run(ctx):
     idcol_rule(ctx, syn)
     textlen_rule(ctx, prog)
     workdir_rule(ctx, syn)
+    csvorder_rule(ctx, syn)
+    csvvalue_rule(ctx, syn)
     from props.c11 import name_rule
     name_rule(ctx, rid="C15.NAME")   # to_file(name) / from_file(name): the manifest or store file is written under the name given
     from props.c01 import expand_rule
@@ -655,3 +657,58 @@ def workdir_rule(ctx, syn, rid="C15.WORKDIR"):
                 ctx.report(r, kind, "filename_without_workdir(%r) with working directory %r gives %r, which the reader resolves to %s - not the file that was written (%s): a store written with such a stand-off file (CSV manifest row, JSON @include) does not load again" % (name, wd, got, show(resolve(got, wd)) if isinstance(got, str) else "?", show(resolve(name, wd))), fn.file, fn.line, {"filename": name, "workdir": wd, "got": got})
     r.hit("filename_without_workdir", sample={"grid": "%d working directories x %d file names" % (len(workdirs), len(names)), "evaluated": n})
     ctx.floor(r, n, 40, "evaluations of filename_without_workdir")
+
+
+# ---------------------------------------------------------------------- ROWORDER
+def csvorder_rule(ctx, syn, rid="C15.ROWORDER"):
+    """items without a public id are written - and referred to from the annotations table - by temporary ids that are
+    their handles (`!D4`), and the reader hands out handles by row position.  So the dataset table has to list keys and
+    data in store order: each serialising loop of AnnotationDataSet::to_csv_writer iterates self.keys() / self.data()
+    directly, with no grouping, sorting, filtering or other re-ordering adaptor in between."""
+    r = ctx.rule(rid, "AnnotationDataSet::to_csv_writer writes its rows in store order: the loops that serialise rows run over self.keys() and self.data() themselves")
+    fns = [f for f in syn.fns if f.name == "to_csv_writer" and f.file == "src/csv.rs" and (f.self_ty or "") == "AnnotationDataSet" and f.body is not None]
+    if len(fns) != 1:
+        ctx.anchor_missing(r, "ToCsv for AnnotationDataSet::to_csv_writer")
+        return
+    fn = fns[0]
+    ctx.functions_analysed.add(fn.qual)
+    loops = [lp for lp in walk(fn.body) if lp.get("k") == "for" and any(c.get("k") == "mcall" and c["method"] == "serialize" for c in walk(lp["body"]))]
+    n = 0
+    for lp in loops:
+        n += 1
+        src = unparse(lp["iter"]).replace(" ", "")
+        if re.fullmatch(r"\w+", src):
+            # a local: judge what it was bound to
+            for st_ in walk(fn.body):
+                if st_.get("k") == "let" and st_["pat"].get("name") == src and st_.get("init") is not None:
+                    src = unparse(st_["init"]).replace(" ", "")
+        r.hit("loop#%d" % n, sample={"iterates": src[:60]})
+        if src not in ("self.keys()", "self.data()"):
+            ctx.report(r, "loop:%s" % re.sub(r"[^A-Za-z_.()]", "", src)[:40], "AnnotationDataSet::to_csv_writer serialises rows from `%s` instead of the store itself: rows no longer come in handle order, so the temporary ids (`!D<n>`) the annotations table uses for items without a public id denote other rows after loading" % src[:70], fn.file, lp.get("l"))
+    ctx.floor(r, n, 2, "row-writing loops of the dataset table")
+
+
+# ---------------------------------------------------------------------- VALUETEXT
+def csvvalue_rule(ctx, syn, rid="C15.VALUETEXT"):
+    """the dataset table has no type column: the Value column is the text of the value, and the reader has to take it as
+    that text (`record.value.into()`, a String value) - any interpretation (numbers, booleans) changes texts such as
+    `007` or `+31`."""
+    r = ctx.rule(rid, "the CSV reader of a dataset takes the Value column as it is (record.value converted with into()/String), without parsing it into another type")
+    fns = [f for f in syn.fns if f.name == "from_csv_reader" and f.file == "src/csv.rs" and (f.self_ty or "") == "AnnotationDataSet" and f.body is not None]
+    if len(fns) != 1:
+        ctx.anchor_missing(r, "FromCsv for AnnotationDataSet::from_csv_reader")
+        return
+    fn = fns[0]
+    ctx.functions_analysed.add(fn.qual)
+    inits = [f_ for lit in walk(fn.body) if lit.get("k") == "structlit" for f_ in lit["fields"] if f_["name"] == "value"]
+    n = 0
+    for f_ in inits:
+        src = unparse(f_["e"]).replace(" ", "")
+        if "record.value" not in src:
+            continue
+        n += 1
+        okv = src in ("record.value.into()", "record.value", "DataValue::String(record.value)", "DataValue::String(record.value.into())", "record.value.to_string().into()", "DataValue::from(record.value)")
+        r.hit("value#%d" % n, sample={"value_init": src[:60]})
+        if not okv:
+            ctx.report(r, "interpreted", "the CSV reader builds a data value with `%s`: the text of the Value column is interpreted instead of kept, so values like `007`, `+31` or `-0` come back as other text" % src[:60], fn.file, f_.get("l"))
+    ctx.floor(r, n, 1, "value initialisations from the Value column")
